@@ -572,10 +572,11 @@ def scan_exits(ctx, prog):
             n_true += 1
             # the running match is tested several times on the way (loop condition, window-end test): the LAST test before the exit - the one
             # whose branch is dominated by all the others - is the one that speaks about the value the exit sees
-            dtests = [(c[3][0], a) for c, a in ((c, bool_atom(c)) for c in pcs) if a and a[0] in ("Eq", "Ne") and strip(a[1])[0] == "local" and const_value(strip(a[2])) == 0 and len(c) > 3]
+            dtests = [(c[3][0], a) for c, a in ((c, bool_atom(c)) for c in pcs) if a and a[0] in ("Eq", "Ne", "Lt", "Le", "Gt", "Ge") and strip(a[1])[0] == "local" and
+                      f.locals[strip(a[1])[1]]["ty"] == "u64" and const_value(strip(a[2])) is not None and len(c) > 3]
             last = [x for x in dtests if all(f.dominates(y[0], x[0]) for y in dtests)]
             ok = any(a[0] == "Eq" and strip(a[1])[0] == "local" and strip(a[2])[0] == "local" for a in ats) and \
-                bool(last) and all(x[1][0] == "Ne" for x in last)
+                bool(last) and all(x[1][0] == "Ne" and const_value(strip(x[1][2])) == 0 for x in last)
             if not ok:
                 bad.append("true at bb%d not under `l == r && d != 0`: %s" % (blk, [G.show_atom(a) for a in scan][:4]))
         else:
